@@ -330,7 +330,7 @@ func (s *Server) publishDiagnosticsSeq(ctx context.Context, docURI protocol.Docu
 	}
 	resolved, loadErrors := s.loader.LoadFromContent(path, content)
 
-	diagnostics := s.analyze(content)
+	diagnostics := s.analyze(content, resolved)
 
 	for _, err := range loadErrors {
 		severity := protocol.DiagnosticSeverityError
@@ -373,7 +373,10 @@ func (s *Server) publishDiagnosticsSeq(ctx context.Context, docURI protocol.Docu
 	})
 }
 
-func (s *Server) analyze(content string) []protocol.Diagnostic {
+// analyze computes the diagnostics of a document; resolved is its include
+// tree, whose account and commodity directives count as declarations when
+// there is no workspace to take them from.
+func (s *Server) analyze(content string, resolved *include.ResolvedJournal) []protocol.Diagnostic {
 	journal, parseErrs := parser.Parse(content)
 
 	diagnostics := make([]protocol.Diagnostic, 0, len(parseErrs))
@@ -399,6 +402,9 @@ func (s *Server) analyze(content string) []protocol.Diagnostic {
 	if s.workspace != nil {
 		external.Accounts = s.workspace.GetDeclaredAccounts()
 		external.Commodities = s.workspace.GetDeclaredCommodities()
+	}
+	if external.Accounts == nil && external.Commodities == nil && resolved != nil && len(resolved.Files) > 0 {
+		external = analyzer.DeclarationsOf(resolved)
 	}
 
 	var result *analyzer.AnalysisResult
